@@ -2,10 +2,10 @@ package gvc
 
 import (
 	"fmt"
-	"path"
 	"go/token"
 	"go/types"
 	"os"
+	"path"
 	"sort"
 	"strings"
 
@@ -26,13 +26,13 @@ import (
 //
 // Set-up functions are named after `except`; closures inside a set-up function are set-up functions too.
 type StateFields struct {
-	Type   string // pkgpath.T ("globals" with Globals set: the package-level variables of the whole repository)
+	Type    string // pkgpath.T ("globals" with Globals set: the package-level variables of the whole repository)
 	Globals bool
-	Fields map[string]bool
-	Except []string
-	Tags   []string
-	File   string
-	Line   int
+	Fields  map[string]bool
+	Except  []string
+	Tags    []string
+	File    string
+	Line    int
 }
 
 type fieldWrite struct {
@@ -337,11 +337,12 @@ func matchesFuncGlob(name string, pats []string) bool {
 // state_fields). Every function of the repository is scanned, so a NEW call site anywhere is an obligation
 // failure of the property; the listed callers are where the contracts with the guards live.
 type CallersRule struct {
-	Callees []string
-	Allowed []string
-	Tags    []string
-	File    string
-	Line    int
+	Callees  []string
+	Allowed  []string
+	AbsentOK bool // no call of the callees anywhere is fine (the rule keeps them away from everything but Allowed)
+	Tags     []string
+	File     string
+	Line     int
 }
 
 func calleeMatches(fn *ssa.Function, pats []string) (string, bool) {
@@ -445,7 +446,9 @@ func (w *World) callersObligations(prop string) []*Obligation {
 			}
 		}
 		st, why := "discharged", fmt.Sprintf("%d call sites scanned", seen)
-		if seen == 0 {
+		if seen == 0 && cr.AbsentOK {
+			why = "no call of any listed function in the repository (allowed by maybe-absent)"
+		} else if seen == 0 {
 			st, why = "failed", "vacuous: no call of any listed function found in the repository"
 		}
 		out = append(out, &Obligation{Name: "callers/" + cr.Callees[0] + "/rule", Func: "callers " + cr.Callees[0], Kind: "callers", Tags: cr.Tags, Status: st,
